@@ -57,6 +57,11 @@ func c08With(kv ...interface{}) func() map[string]interface{} {
 	}
 }
 
+type pStruct2 struct {
+	Qty  int
+	Name string
+}
+
 type pStruct struct {
 	A int
 	B string
@@ -131,6 +136,22 @@ var c08Pool = func() []poolEntry {
 		{"max(a, b, y) + min(a, b, y) + abs(y) + round(b) + toInt(y)", [][]interface{}{{"y", 9.5}, {"y", -9.5, "b", 0.5}, {"a", 100}}},
 		{"[max([a, 0]...), join([s, 'kg'], ' '), [b, 1, 'k'], [[a], 2]]", [][]interface{}{{"a", 5.0}, {"a", 9.0, "s", "t"}, {"a", "x", "b", nil}}},
 		{"(a > 1 ? 'big' : 'small') + (typeof a) + toString([a, 1] == null)", [][]interface{}{{"a", 5.0}, {"a", 0.5}, {"a", "5"}}},
+		{"rec.Name + ':' + rec.Qty + ':' + len(rec.Name)", [][]interface{}{
+			{"rec", struct {
+				Name string
+				Qty  int
+			}{"bolt", 3}},
+			{"rec", struct {
+				Qty  int
+				Name string
+			}{4, "nut"}},
+			{"rec", struct {
+				ID   int
+				Qty  float64
+				Name string
+			}{1, 2.5, "washer"}},
+			{"rec", pStruct2{Qty: 9, Name: "named"}},
+			{"rec", map[string]interface{}{"Name": "m", "Qty": 1.0}}}},
 		{"lpad(s, 'x', c) + left(s, a) + mid(s, a, c)", [][]interface{}{{"s", "abcdefgh"}, {"s", "中文字符", "c", 6}, {"a", 0, "c", 0}}},
 	}
 	for _, v := range variants {
